@@ -38,6 +38,10 @@ class GrammarModel:
             from . import alpha
 
             vetted = alpha.table().get("grammar", {})
+            # a rule the Python side knows by name (a transformer callback, a `tree.data == "..."` test) is not a plain
+            # rename when only the grammar changes: those are left as they are
+            py_names = {q.split(".")[-1] for m_ in alpha.table().get("modules", {}).values() for q in m_} | set(alpha.table().get("string_words", []))
+            vetted = {k: v for k, v in vetted.items() if k not in py_names}
             for _round in range(3):
                 missing = [n for n in vetted if n not in self.rules]
                 fresh = [n for n in self.rules if n not in vetted]
